@@ -58,6 +58,9 @@ type c13Worker struct {
 	movLocs []string
 	oplog   []string
 	sh      []*c13SharedH
+	late    []string   // directories made during the activity that this worker has joined
+	cur     string     // path the current operation works on (for signatures)
+	joins   []*c13Join // in the order (at, idx): the same order for every worker
 }
 
 func (w *c13Worker) logf(format string, a ...interface{}) {
@@ -68,6 +71,9 @@ func (w *c13Worker) logf(format string, a ...interface{}) {
 }
 
 func (w *c13Worker) viol(sig, detail string) {
+	if !strings.HasSuffix(sig, c13NsDoubled) {
+		sig += w.e.doubledSuffix(w.cur)
+	}
 	w.e.violation(sig, fmt.Sprintf("worker %d: %s\nlast operations of this worker:\n  %s", w.id, detail, strings.Join(w.oplog, "\n  ")))
 }
 
@@ -102,6 +108,7 @@ func (w *c13Worker) changed(mf *c13MFile, old []byte) {
 
 func (w *c13Worker) dirs() []string {
 	d := []string{w.priv, w.mov}
+	d = append(d, w.late...)
 	return append(d, w.e.sdirs...)
 }
 
@@ -239,6 +246,15 @@ func (w *c13Worker) runStream() {
 		}
 	}
 	for i := 0; i < w.e.cfg.OpsPer && !w.e.aborted(); i++ {
+		for _, j := range w.joins {
+			if j.at == i && !w.e.aborted() {
+				atomic.AddInt64(&w.started, 1)
+				w.e.ctl.event(true, false)
+				w.opJoin(j)
+				atomic.AddInt64(&w.done, 1)
+				w.e.ctl.event(true, true)
+			}
+		}
 		atomic.AddInt64(&w.started, 1)
 		w.e.ctl.event(true, false)
 		wrote := w.step()
@@ -262,6 +278,7 @@ func (w *c13Worker) pickH(want func(*c13H) bool) *c13H {
 
 // step performs one operation; it reports whether it was a data write.
 func (w *c13Worker) step() bool {
+	w.cur = ""
 	if sh := w.joinBurst(); sh != nil {
 		w.sharedOp(sh)
 		return false
@@ -345,6 +362,7 @@ func (w *c13Worker) opOpen() {
 		w.hs[i].f.Close()
 		w.hs = append(w.hs[:i], w.hs[i+1:]...)
 	}
+	w.cur = p
 	w.logf("open %s flag=%#x (exists=%v)", p, flag, mf != nil)
 	e.count("ops_open", 1)
 	f, err := e.fs.OpenFile(p, flag, 0644)
@@ -362,7 +380,7 @@ func (w *c13Worker) opOpen() {
 		return
 	}
 	if err != nil {
-		w.viol("C13:C1:unexpected-error:open", fmt.Sprintf("OpenFile(%q, %#x): %v (file exists in model: %v)", p, flag, err, mf != nil))
+		w.viol(w.nsSig(p, err, "C13:C1:unexpected-error:open"), fmt.Sprintf("OpenFile(%q, %#x): %v (file exists in model: %v)", p, flag, err, mf != nil))
 		return
 	}
 	if mf == nil {
@@ -397,6 +415,7 @@ func (w *c13Worker) opWrite(overwrite bool) bool {
 			return false
 		}
 	}
+	w.cur = h.mf.path
 	var data []byte
 	if overwrite {
 		// go back into the range written last through this handle
@@ -446,6 +465,7 @@ func (w *c13Worker) opSeek() {
 		return
 	}
 	w.e.count("ops_seek", 1)
+	w.cur = h.mf.path
 	size := int64(len(h.mf.data))
 	var off, want int64
 	whence := w.rng.Intn(3)
@@ -487,6 +507,7 @@ func (w *c13Worker) opRead(all bool) {
 		}
 		return
 	}
+	w.cur = h.mf.path
 	n := w.sizeChoice() + w.rng.Intn(2*e.cfg.BlockSize+1)
 	if all {
 		if pos, err := h.f.Seek(0, io.SeekStart); err != nil || pos != 0 {
@@ -528,6 +549,7 @@ func (w *c13Worker) opTruncate() bool {
 	if w.rng.Chance(1, 5) {
 		size = 0
 	}
+	w.cur = h.mf.path
 	w.logf("truncate %s %d -> %d", h.mf.path, len(h.mf.data), size)
 	w.e.count("ops_truncate", 1)
 	err := h.f.Truncate(int64(size))
@@ -554,6 +576,7 @@ func (w *c13Worker) opRename() {
 			}
 		}
 		from := w.mov
+		w.cur = from + "/"
 		w.logf("rename dir %s -> %s", from, to)
 		e.count("ops_rename", 1)
 		e.count("ops_rename_dir", 1)
@@ -584,6 +607,7 @@ func (w *c13Worker) opRename() {
 			return
 		}
 		dst := w.newPath()
+		w.cur = src
 		w.logf("rename missing %s -> %s", src, dst)
 		err := e.fs.Rename(src, dst)
 		w.eval(1)
@@ -601,12 +625,16 @@ func (w *c13Worker) opRename() {
 	} else {
 		e.count("ops_rename_across_dirs", 1)
 	}
+	w.cur = src
+	if e.inLate(dst) && !e.inLate(src) {
+		w.cur = dst
+	}
 	w.logf("rename %s -> %s (dst exists=%v)", src, dst, w.files[dst] != nil)
 	e.count("ops_rename", 1)
 	err := e.fs.Rename(src, dst)
 	w.eval(1)
 	if err != nil {
-		w.viol("C13:C1:unexpected-error:rename", fmt.Sprintf("Rename(%q, %q): %v", src, dst, err))
+		w.viol(w.nsSig(src, err, "C13:C1:unexpected-error:rename"), fmt.Sprintf("Rename(%q, %q): %v", src, dst, err))
 		return
 	}
 	mf := w.files[src]
@@ -628,6 +656,7 @@ func (w *c13Worker) opRemove() {
 		if w.files[p] != nil {
 			return
 		}
+		w.cur = p
 		w.logf("remove missing %s", p)
 		err := e.fs.Remove(p)
 		w.eval(1)
@@ -636,12 +665,13 @@ func (w *c13Worker) opRemove() {
 		}
 		return
 	}
+	w.cur = p
 	w.logf("remove %s", p)
 	e.count("ops_remove", 1)
 	err := e.fs.Remove(p)
 	w.eval(1)
 	if err != nil {
-		w.viol("C13:C1:unexpected-error:remove", fmt.Sprintf("Remove(%q): %v", p, err))
+		w.viol(w.nsSig(p, err, "C13:C1:unexpected-error:remove"), fmt.Sprintf("Remove(%q): %v", p, err))
 		return
 	}
 	w.files[p].path = ""
@@ -653,6 +683,7 @@ func (w *c13Worker) opStat() {
 	e := w.e
 	e.count("ops_stat", 1)
 	if h := w.pickH(nil); h != nil && w.rng.Bool() {
+		w.cur = h.mf.path
 		w.logf("handle stat %s", h.mf.path)
 		var size int64
 		if w.rng.Bool() {
@@ -675,6 +706,7 @@ func (w *c13Worker) opStat() {
 	if p == "" || w.rng.Chance(1, 8) {
 		p = w.newPath()
 	}
+	w.cur = p
 	w.logf("stat %s", p)
 	fi, err := e.fs.Stat(p)
 	w.eval(1)
@@ -686,7 +718,7 @@ func (w *c13Worker) opStat() {
 		return
 	}
 	if err != nil {
-		w.viol("C13:C1:unexpected-error:stat", fmt.Sprintf("Stat(%q): %v", p, err))
+		w.viol(w.nsSig(p, err, "C13:C1:unexpected-error:stat"), fmt.Sprintf("Stat(%q): %v", p, err))
 		return
 	}
 	if fi.Size() != int64(len(mf.data)) || fi.Name() != path.Base(p) || fi.IsDir() {
@@ -698,6 +730,7 @@ func (w *c13Worker) opReaddir() {
 	e := w.e
 	d := w.dirs()
 	dir := d[w.rng.Intn(len(d))]
+	w.cur = dir + "/"
 	w.logf("readdir %s", dir)
 	e.count("ops_readdir", 1)
 	f, err := e.fs.Open(dir)
@@ -748,6 +781,7 @@ func (w *c13Worker) opClose() {
 }
 
 func (w *c13Worker) opSave() {
+	w.cur = ""
 	w.logf("save/flush")
 	w.e.saveOp(w.rng, w.dirs())
 }
@@ -757,6 +791,7 @@ func (w *c13Worker) opSave() {
 func (w *c13Worker) finalCheck(stage string) {
 	e := w.e
 	check := func(what string, f File, mf *c13MFile) {
+		w.cur = mf.path
 		if pos, err := f.Seek(0, io.SeekStart); err != nil || pos != 0 {
 			w.viol("C13:C1:unexpected-error:seek", fmt.Sprintf("%s: Seek(0) = %d, %v", what, pos, err))
 			return
@@ -771,9 +806,10 @@ func (w *c13Worker) finalCheck(stage string) {
 		}
 	}
 	for _, p := range w.sortedPaths() {
+		w.cur = p
 		f, err := e.fs.OpenFile(p, os.O_RDONLY, 0)
 		if err != nil {
-			w.viol("C13:C1:unexpected-error:final-open", fmt.Sprintf("OpenFile(%q) (%s): %v", p, stage, err))
+			w.viol(w.nsSig(p, err, "C13:C1:unexpected-error:final-open"), fmt.Sprintf("OpenFile(%q) (%s): %v", p, stage, err))
 			continue
 		}
 		check(fmt.Sprintf("file %q", p), f, w.files[p])
